@@ -152,6 +152,21 @@ pub fn any_f64() -> BoxedStrategy<f64> {
 }
 
 /// Doubles `limit / x`-style: values for which `x * k` or `x / k` lands near `limit`.
+/// Factors tuned to the overflow boundary of the double itself: x * k and x / k clearly finite
+/// (half the boundary), at the boundary, and clearly infinite (twice the boundary).
+pub fn overflow_seeking(x: i128) -> Vec<f64> {
+    let mut v = vec![];
+    if x != 0 {
+        let xf = (x as f64).abs();
+        for scale in [0.25, 0.5, 1.0, 2.0, 4.0] {
+            v.push(f64::MAX / xf * scale); // multiplier: product = MAX * scale
+            v.push(xf / f64::MAX / scale); // divisor: quotient = MAX * scale
+            v.push(-(xf / f64::MAX / scale));
+        }
+    }
+    v.into_iter().filter(|k| k.is_finite()).collect()
+}
+
 pub fn edge_seeking(x: i128, limit: i128) -> Vec<f64> {
     let mut v = vec![];
     if x != 0 {
